@@ -4,3 +4,4 @@ import Lace.Props.C11
 #print axioms Lace.C11.exec_rearms
 #print axioms Lace.C11.no_bp_no_pause
 #print axioms Lace.C11.runCommand_bps
+#print axioms Lace.C11.armed_iteration_reads
